@@ -151,15 +151,33 @@ def deltranL (p : Option Vec) : List A → List A
 end
 
 mutual
+/-- ACCTRAN.  Since fix a20daad (`if child != prev && !child.Tip()`) a tip child is no longer intersected with
+    its parent: a node without children keeps its slice.  (acr/parsimony.go still intersects tip children; a tip has
+    one state there, so the set is the same — `inter_single_tip`.) -/
 def acctran (p : Option Vec) : A → A
+  | .node s [] => .node s []
+  | .node s (c :: cs) =>
+    let s' := match p with
+      | none => s
+      | some pv => inter k s pv
+    .node s' (acctranL (some s') (c :: cs))
+def acctranL (p : Option Vec) : List A → List A
+  | [] => []
+  | a :: r => acctran p a :: acctranL p r
+end
+
+/- the pinned behaviour of ASR (before fix a20daad): tip children are intersected with their parent too, so an
+   IUPAC-ambiguous tip is NARROWED (finding AcctranAmbiguousTipNarrowed, repaired) -/
+mutual
+def acctranPinned (p : Option Vec) : A → A
   | .node s ks =>
     let s' := match p with
       | none => s
       | some pv => inter k s pv
-    .node s' (acctranL (some s') ks)
-def acctranL (p : Option Vec) : List A → List A
+    .node s' (acctranPinnedL (some s') ks)
+def acctranPinnedL (p : Option Vec) : List A → List A
   | [] => []
-  | a :: r => acctran p a :: acctranL p r
+  | a :: r => acctranPinned p a :: acctranPinnedL p r
 end
 
 end passes
